@@ -17,9 +17,26 @@ import (
 type zzConn struct{ net.Conn }
 
 // zzPipe is a stream whose Send side queues envelopes for its Recv side.
-type zzPipe struct{ zzStream }
+type zzPipe struct {
+	zzStream
+	wire   bool // carry the envelope as the bytes of the real MarshalVT, decoded by the real UnmarshalVT
+	nbytes int
+}
 
-func (p *zzPipe) Send(e *Envelope) error { p.envs = append(p.envs, e); return nil }
+func (p *zzPipe) Send(e *Envelope) error {
+	if p.wire {
+		b, err := e.MarshalVT()
+		zzrt.Assert(err == nil, "C15:envelope-does-not-marshal")
+		zzrt.Assert(len(b) == e.SizeVT(), "C15:marshalled-size-differs-from-SizeVT")
+		d := &Envelope{}
+		err = d.UnmarshalVT(b)
+		zzrt.Assert(err == nil, "C15:marshalled-envelope-does-not-unmarshal")
+		p.nbytes = len(b)
+		e = d
+	}
+	p.envs = append(p.envs, e)
+	return nil
+}
 
 func (zzConn) SetDeadline(time.Time) error { return nil }
 
@@ -58,7 +75,7 @@ func ZZ_C15_RoundTrip() {
 	zb := actor.ZZNewEngine("node:B")
 	tids := []string{"t/0", "t/1"}
 	procs := []*actor.ZZRecProc{zb.Register(tids[0]), zb.Register(tids[1])}
-	pipe := &zzPipe{}
+	pipe := &zzPipe{wire: zzrt.Param("WIRE") == 1}
 	w := &streamWriter{writeToAddr: "node:B", engine: za.E, stream: pipe, rawconn: zzConn{}, serializer: zzSer{},
 		pid: actor.NewPID("node:A", "stream/node:B")}
 	r := &streamReader{remote: &Remote{engine: zb.E}, deserializer: zzWireDeser{}}
@@ -149,5 +166,104 @@ func ZZ_C15_RoundTrip() {
 		zzrt.Assert(total == n-nbad, "C15:unserialisable-message-affects-rest-of-batch")
 	} else {
 		zzrt.Assert(total == n, "C15:message-count-differs")
+	}
+}
+
+// ZZ_C15_Codec: the generated wire codec alone. An Envelope with small concrete
+// tables and 1..M messages whose three indices are unconstrained symbolic
+// int32 (all varint length classes, negative values = 10-byte varints) and
+// whose payload bytes are symbolic is marshalled by the real MarshalVT and
+// decoded by the real UnmarshalVT; every field must come back.
+func ZZ_C15_Codec() {
+	M := zzrt.Param("M")
+	wide := zzrt.Param("WIDE") // bit 3*j+f set: field f (0 type, 1 sender, 2 target) of message j ranges over all of int32; otherwise 0..127
+	e := &Envelope{}
+	nT, nG, nS := 1, 1, 1
+	if zzrt.Param("TABLES") == 1 {
+		nT, nG, nS = zzrt.Choose(3), zzrt.Choose(3), zzrt.Choose(2)
+	}
+	for i := 0; i < nT; i++ {
+		e.TypeNames = append(e.TypeNames, []string{"", "a", "ty.B"}[i])
+	}
+	for i := 0; i < nG; i++ {
+		e.Targets = append(e.Targets, &actor.PID{Address: []string{"n:1", ""}[i], ID: []string{"t/0", "x"}[i]})
+	}
+	for i := 0; i < nS; i++ {
+		e.Senders = append(e.Senders, &actor.PID{Address: "n:2", ID: "s"})
+	}
+	nM := M
+	idx := func(name string, bit int) int32 {
+		v := zzrt.NondetInt32(name)
+		if wide&(1<<bit) == 0 {
+			zzrt.Assume(v >= 0 && v < 128)
+		}
+		return v
+	}
+	for j := 0; j < nM; j++ {
+		e.Messages = append(e.Messages, &Message{
+			Data:          zzrt.NondetBytes("data", zzrt.Choose(zzrt.Param("D")+1)),
+			TypeNameIndex: idx("typeNameIndex", 3*j),
+			SenderIndex:   idx("senderIndex", 3*j+1),
+			TargetIndex:   idx("targetIndex", 3*j+2),
+		})
+	}
+	var b []byte
+	var err error
+	d := &Envelope{}
+	escaped := false
+	func() {
+		defer func() {
+			if v := recover(); v != nil {
+				escaped = true
+			}
+		}()
+		b, err = e.MarshalVT()
+		if err == nil {
+			err = d.UnmarshalVT(b)
+		}
+	}()
+	zzrt.Assert(!escaped, "C15:codec-panics")
+	zzrt.Assert(err == nil, "C15:marshalled-envelope-does-not-unmarshal")
+	if escaped || err != nil {
+		return
+	}
+	zzrt.Assert(len(b) == e.SizeVT(), "C15:marshalled-size-differs-from-SizeVT")
+	if len(b) >= 20 {
+		zzrt.Reach("ten-byte-varint-possible")
+	}
+	zzrt.Assert(len(d.TypeNames) == nT && len(d.Targets) == nG && len(d.Senders) == nS && len(d.Messages) == nM, "C15:codec-changes-table-or-message-count")
+	for i := range d.TypeNames {
+		if i < nT {
+			zzrt.Assert(d.TypeNames[i] == e.TypeNames[i], "C15:codec-changes-type-name")
+		}
+	}
+	for i := range d.Targets {
+		if i < nG {
+			zzrt.Assert(d.Targets[i] != nil && d.Targets[i].Address == e.Targets[i].Address && d.Targets[i].ID == e.Targets[i].ID, "C15:codec-changes-target")
+		}
+	}
+	for i := range d.Senders {
+		if i < nS {
+			zzrt.Assert(d.Senders[i] != nil && d.Senders[i].Address == e.Senders[i].Address && d.Senders[i].ID == e.Senders[i].ID, "C15:codec-changes-sender")
+		}
+	}
+	for j := range d.Messages {
+		if j >= nM {
+			break
+		}
+		dm, em := d.Messages[j], e.Messages[j]
+		zzrt.Assert(dm != nil, "C15:codec-drops-message")
+		if dm == nil {
+			continue
+		}
+		zzrt.Assert(dm.TypeNameIndex == em.TypeNameIndex, "C15:codec-changes-type-index")
+		zzrt.Assert(dm.SenderIndex == em.SenderIndex, "C15:codec-changes-sender-index")
+		zzrt.Assert(dm.TargetIndex == em.TargetIndex, "C15:codec-changes-target-index")
+		zzrt.Assert(len(dm.Data) == len(em.Data), "C15:codec-changes-payload-length")
+		for k := range dm.Data {
+			if k < len(em.Data) {
+				zzrt.Assert(dm.Data[k] == em.Data[k], "C15:codec-changes-payload")
+			}
+		}
 	}
 }
